@@ -20,6 +20,9 @@ CHECKS = {
  'C09': dict(cat='fault_enumeration', engine='E3', tech='exhaustive fault-point enumeration: SQL-statement interposer (exception instead of/after every statement, commit, close), fork+_exit at every point, strace SIGKILL at every write syscall',
    text='27 write-operation instances (upload/overwrite/delete of adsorbates, materials, isotherms, property types on empty / unrelated / containing databases) x every statement/commit/rollback/close point the operation issues x fault kinds (4 sqlite3 exception classes raised instead of or after the statement; process exit before/after the point in a forked child); bound 2: a second fault inside the retry; thorough additionally kills the process at every write-class syscall (journal/database writes, fsync, unlink) via strace fault injection. After each fault the raw tables must equal the dict model before or after the operation, prior content must be retrievable, and the repeated call must succeed.',
    note='Process death, not power loss; in-session retry; dict model shared with C08.', ref='§4 C09'),
+ 'C03': dict(cat='exploration', engine='E2', tech='bounded-exhaustive enumeration of (stored, requested) representation pairs x accessor alphabet, differential against permanent conversion / bare model',
+   text='Every ordered pair of stored and requested loading x material representations (quick: 60x60 unit-class quotient; thorough: 513x513) and of the 10 pressure representations, for point isotherms (all accessors: whole branch, limits, interpolation at knots/midpoints/quarter points, scalar/list/array, both branches, foreign inputs) compared with a permanently converted copy read natively, and for model isotherms (Langmuir, Virial) compared with bare model composed with the reference conversion. The branch-guess rule is enumerated over all 363 pressure sequences of length 1-5 over {1,2,3} x 16 construction routes; interpolation clauses (knots, chords, refusal outside, fill) incl. every ordered pair of interpolation settings on one object.',
+   note='Permanent conversion trusted as oracle only where it agrees with the SI reference (C02); numeric data on one monotonic two-branch data set (lattice phase scales loadings).', ref='§4 C03'),
 }
 
 def main():
